@@ -479,6 +479,21 @@ func genSrvCase(rt *rapid.T, modes []string) *SrvCase {
 			s.From = GenNode().Draw(rt, "from")
 		}
 		c.Script = append(c.Script, s)
+		if s.Kind == "session" && s.State == "negotiating" && s.Enc == "tls" && s.DoTLS && rapid.IntRange(0, 2).Draw(rt, "glue") == 0 {
+			// a peer that pipelines: cleartext credentials in the same write as its choice of tls
+			var auths []CSym
+			for _, x := range alpha {
+				if x.Kind == "session" && x.State == "authenticating" && x.ID == "sid" && decodableSym(&x) {
+					auths = append(auths, x)
+				}
+			}
+			if len(auths) > 0 {
+				g := rapid.SampledFrom(auths).Draw(rt, "glued")
+				g.Glued = true
+				c.Script = append(c.Script, g)
+				i++
+			}
+		}
 	}
 	return c
 }
